@@ -232,6 +232,19 @@ impl Channel {
             let dur = metrics.calculate_duration(&msg, rng_ref);
             let busy = metrics.calculate_busy(&msg);
 
+            // Schedule the exit of this message before the unbusy notification. If both fall onto the
+            // same instant (no latency), a queued message that is dequeued by the notification and takes
+            // no time itself must not overtake this message.
+            let next_event_time = SimTime::now() + dur;
+
+            sink.add(
+                NetEvents::MessageExitingConnection(MessageExitingConnection {
+                    con: via.clone(),
+                    msg,
+                }),
+                next_event_time,
+            );
+
             if busy != Duration::ZERO {
                 let transmissin_finish = SimTime::now() + busy;
 
@@ -245,16 +258,6 @@ impl Channel {
                     transmissin_finish,
                 );
             }
-
-            let next_event_time = SimTime::now() + dur;
-
-            sink.add(
-                NetEvents::MessageExitingConnection(MessageExitingConnection {
-                    con: via.clone(),
-                    msg,
-                }),
-                next_event_time,
-            );
 
             // must break iteration,
             // but not perform on-module handling
